@@ -26,6 +26,13 @@ func stakeX(lvl int) map[string]interface{} {
 	return map[string]interface{}{"kind": "app_stake", "app": "a8", "chains": []interface{}{"0001"}, "amount": float64(amt)}
 }
 
+// forgedTx is the forged transaction F of ChainRel: a well-formed send out of a5's account that
+// carries a5's public key and a corrupted signature; the fixed id makes every submission
+// (CheckTx, simulation, block) the very same bytes.
+func forgedTx() map[string]interface{} {
+	return map[string]interface{}{"kind": "send", "from": "a5", "to": "a6", "amount": float64(777), "id": float64(7777), "corruptSig": true}
+}
+
 // concretize turns a ChainRel behaviour into a node script.  X = a8; each transfer
 // moves X to a fresh key (a9, a10, ...).
 func concretize(beh []hx.Step, seed int64) Script {
@@ -38,6 +45,8 @@ func concretize(beh []hx.Step, seed int64) Script {
 			open = true
 			if st.Str("kind") == "stake" {
 				sc.Actions = append(sc.Actions, Action{A: "tx", Txs: []map[string]interface{}{stakeX(st.Int("lvl"))}})
+			} else if st.Str("kind") == "forged" {
+				sc.Actions = append(sc.Actions, Action{A: "tx", Txs: []map[string]interface{}{forgedTx()}})
 			} else {
 				tgt := fmt.Sprintf("a%d", nextTarget)
 				nextTarget++
@@ -51,10 +60,12 @@ func concretize(beh []hx.Step, seed int64) Script {
 			sc.Actions = append(sc.Actions, Action{A: "rpc", OnlyA: true, Path: "app", Who: "a8", Height: int64(warm + st.Int("h"))})
 		case "abci":
 			sc.Actions = append(sc.Actions, Action{A: "abci", OnlyA: true, Path: "custom/application/application", Who: "a8", Height: int64(warm + st.Int("h"))})
-		case "checktx":
-			sc.Actions = append(sc.Actions, Action{A: "checktx", OnlyA: true, Tx: stakeX(st.Int("lvl"))})
-		case "simulate":
-			sc.Actions = append(sc.Actions, Action{A: "simulate", OnlyA: true, Tx: stakeX(st.Int("lvl"))})
+		case "checktx", "simulate":
+			tx := stakeX(st.Int("lvl"))
+			if st.Int("lvl") == 0 {
+				tx = forgedTx()
+			}
+			sc.Actions = append(sc.Actions, Action{A: st.Str("a"), OnlyA: true, Tx: tx})
 		}
 	}
 	if open {
@@ -209,8 +220,11 @@ func randomScript(rng *rand.Rand, seed int64, withSim, withAbciOld bool) (Script
 				a = Action{A: "abci", Path: queryPaths[rng.Intn(len(queryPaths))], Who: names[rng.Intn(len(names))], Height: hh}
 			case r < 8:
 				a = Action{A: "store", Path: storePaths[rng.Intn(len(storePaths))], Height: 2 + rng.Int63n(h-1)}
-			case r < 10:
+			case r < 9:
 				a = Action{A: "checktx", Tx: map[string]interface{}{"kind": "send", "from": "a5", "to": "a6", "amount": float64(1 + rng.Intn(1000))}}
+			case r < 10:
+				// the forged transaction, by CheckTx or by simulation; it may be in a later block
+				a = Action{A: []string{"checktx", "simulate"}[rng.Intn(2)], Tx: forgedTx()}
 			case r < 11:
 				a = Action{A: "dispatch", Who: "a4", Chain: "0001"}
 			default:
@@ -229,7 +243,9 @@ func randomScript(rng *rand.Rand, seed int64, withSim, withAbciOld bool) (Script
 		}
 		var txs []map[string]interface{}
 		for k := rng.Intn(3); k > 0; k-- {
-			switch rng.Intn(5) {
+			switch rng.Intn(6) {
+			case 5:
+				txs = append(txs, forgedTx())
 			case 0, 1:
 				txs = append(txs, map[string]interface{}{"kind": "send", "from": "a5", "to": names[rng.Intn(len(names))], "amount": float64(1 + rng.Intn(5000))})
 			case 2:
